@@ -804,9 +804,9 @@ impl M {
                     match CredentialResponse::<Cs>::deserialize(&m) {
                         Err(e) => ('d', perr(&e), None),
                         Ok(resp) => {
-                            if resp.serialize().as_slice() == base.as_slice() {
-                                return ('=', String::new(), None);
-                            }
+                            // different bytes that decode to the genuine content (an alias encoding): still
+                            // delivered; outcome letters a / l / e instead of A / L / E
+                            let alias = resp.serialize().as_slice() == base.as_slice();
                             let params = ClientLoginFinishParameters::new(
                                 ctx.as_deref(),
                                 Identifiers {
@@ -816,9 +816,9 @@ impl M {
                                 ksf,
                             );
                             match state.clone().finish(&pw, resp, params) {
-                                Ok(r) => ('A', String::new(), Some(r.session_key.to_vec())),
-                                Err(ProtocolError::InvalidLoginError) => ('L', String::new(), None),
-                                Err(e) => ('E', perr(&e), None),
+                                Ok(r) => (if alias { 'a' } else { 'A' }, String::new(), Some(r.session_key.to_vec())),
+                                Err(ProtocolError::InvalidLoginError) => (if alias { 'l' } else { 'L' }, String::new(), None),
+                                Err(e) => (if alias { 'e' } else { 'E' }, perr(&e), None),
                             }
                         }
                     }
@@ -830,7 +830,7 @@ impl M {
                     }
                     Ok((ch, code, key)) => {
                         out.push(ch);
-                        if ch == 'A' {
+                        if ch == 'A' || ch == 'a' {
                             notable.push(json!({"off": off, "val": nb, "key": key.map(hex::encode)}));
                         } else if ch == 'E' || ch == 'd' {
                             *others.entry(format!("{ch}:{code}")).or_insert(0) += 1;
